@@ -273,7 +273,7 @@ def run_c07(ctx, replay=None):
     if rt_progs:
         runs.append(("rt", build_c07(ctx, realtime=True), rt_progs, ["-realtime"]))
     # every run writes its own trace (ids offset by run); one TLC validation over the concatenation
-    viol, seen, summaries, cov_sched = [], {}, {}, 0
+    viol, seen, summaries, cov_sched, confirmed = [], {}, {}, 0, set()
     allp = os.path.join(ctx.scratch, "c07-all-trace.ndjson")
     with open(allp, "w") as out:
         for i, (tag, binary, progs, extra) in enumerate(runs):
@@ -294,8 +294,8 @@ def run_c07(ctx, replay=None):
             info[t] = info.get(t, 0) + 1
     for (tid, line, clauses, tags) in rep.monitors:
         tag, binary, progs, extra = runs[tid // 1000000]
-        key = tag + "|" + ",".join(sorted(clauses)) + "|" + ",".join(sorted(tags))
-        if seen.get(key, 0) >= 2:
+        key = ",".join(sorted(clauses)) + "|" + ",".join(sorted(t for t in tags if t != "addressed_reply_discarded"))
+        if seen.get(key, 0) >= 2 or key in confirmed:      # one confirmed report per kind is enough, two attempts
             continue
         seen[key] = seen.get(key, 0) + 1
         prog = progs[pid[tid]]
@@ -304,6 +304,7 @@ def run_c07(ctx, replay=None):
         rep2 = vlib.validate(ctx, "Trace_QueryReply", C07_TRACE_CFG, tp2)
         again = sorted(set(c for m in rep2.monitors for c in m[2] if c in clauses))
         if again:
+            confirmed.add(key)
             viol.append({"clauses": again, "tags": sorted(tags), "schedule": prog, "mode": tag})
         else:
             ctx.log("report %s (%s, trace %d) not reproduced; ignored" % (clauses, tag, tid))
@@ -369,13 +370,13 @@ def key_drive(ctx, binary, mode, inputs, tag):
 
 def key_confirm(ctx, binary, rep, inputs_of, prefix):
     """Monitor reports -> violations confirmed by a second execution from scratch.  inputs_of(trace id) = (mode, input)."""
-    viol, seen = [], {}
+    viol, seen, confirmed = [], {}, set()
     for (tid, line, clauses, tags) in rep.monitors:
         mine = sorted(c for c in clauses if c.startswith(prefix))
         if not mine:
             continue
         key = ",".join(mine)
-        if seen.get(key, 0) >= 2:
+        if seen.get(key, 0) >= 2 or key in confirmed:
             continue
         seen[key] = seen.get(key, 0) + 1
         mode, inp = inputs_of(tid)
@@ -383,6 +384,7 @@ def key_confirm(ctx, binary, rep, inputs_of, prefix):
         rep2 = vlib.validate(ctx, "Trace_KeyOps", KEY_TRACE_CFG, tp2)
         again = sorted(set(c for m in rep2.monitors for c in m[2] if c in mine))
         if again:
+            confirmed.add(key)
             viol.append({"clauses": again, "tags": [], "schedule": inp, "mode": mode})
         else:
             ctx.log("report %s on input %d not reproduced; ignored" % (mine, tid))
